@@ -53,6 +53,16 @@ def run(chk: Check, proj: Project) -> None:
 
     chk.rule("S10", "every function on the render routes that hands its parameters on to the next one (Component.render -> _render -> _render_impl -> _render_with_id, render_to_response -> render, ComponentNode.render -> _render, resolve_fills -> _extract_fill_content ...) hands on EVERY parameter the two signatures share, positional ones in the position of the same name")
     generic.forwarding(chk, "S10", proj, w.cg, ["component", "components.dynamic", "slots", "component_registry", "node", "provide"], floor=6)
+    from . import C07 as _C07
+
+    def _slot_state(sub):
+        r_ = _C07.reach_set(proj, w)
+        _C07.s1c_shared(sub, proj, w, r_)
+        _C07.s1a_nodes(sub, proj, w, r_)
+        _C07.s1g_global_objects(sub, proj, w, r_)
+
+    chk.borrow("S13", "the content a slot prints is the content of ITS fill: the objects a fill is rendered through (the Template wrapper around the fill's nodelist, the render function's working state) belong to that fill - one module-level wrapper whose `.nodelist` is assigned just before rendering is shared by all threads, and a thread switch between the assignment and the render makes a slot print another render's fill (shared with C07-S1-C / S1-A2 / S1-G)",
+               _slot_state, only=lambda o: o.construct.startswith("slots:"))
     chk.borrow("S8", "slot resolution, the isolation gate and the fill-context choice read the SAME mode (the component's registry settings) (shared with C03-S10)",
                lambda sub: C03.s10_mode_source(sub, proj, w), only=lambda o: "mode-from-registry" in o.construct)
 
